@@ -10,11 +10,12 @@ ROOT="$(cd "$(dirname "$0")/.." && pwd)"
 REPO="${VERIF_REPO:-/repo}"
 dir="$ROOT/seeded/$id"
 [ -f "$dir/patch.diff" ] || { echo "no $dir/patch.diff"; exit 2; }
-[ -z "$(git -C "$REPO" status --porcelain -- src Cargo.toml)" ] || { echo "/repo has uncommitted changes"; exit 2; }
 props="$*"
 if [ -z "$props" ]; then props="$(python3 -c "import json;print(' '.join(json.load(open('$dir/meta.json')).get('check_with',[])))" 2>/dev/null)"; fi
 [ -n "$props" ] || props="C01 C02 C03 C04 C05 C06 C07 C08 C09 C10 C11 C12 C13 C14 C15 C16 C17 C18 C19"
 if [ "$REPO" = /repo ]; then exec 8>/var/tmp/lzsim-repo.lock; flock -x 8; fi; export VERIF_NO_REPO_LOCK=1
+# (checked under the lock: another trial may have had its change applied a moment ago)
+[ -z "$(git -C "$REPO" status --porcelain -- src Cargo.toml)" ] || { echo "/repo has uncommitted changes"; exit 2; }
 git -C "$REPO" apply "$dir/patch.diff" || { echo "patch does not apply"; exit 2; }
 # evidence/ and replays/ describe the unchanged tree: keep them out of a seed trial's way
 bak="$(mktemp -d /var/tmp/seedtrial.XXXXXX)"
